@@ -54,9 +54,21 @@ func Open() (pty, tty *os.File, err error) {
 }
 
 func ioctl(f *os.File, name string, cmd, ptr uintptr) error {
-	_, _, err := syscall.Syscall(syscall.SYS_IOCTL, f.Fd(), cmd, ptr)
-	if err != 0 {
+	// Use SyscallConn rather than f.Fd: Fd puts the file into blocking mode,
+	// and Close cannot interrupt a Write that is blocked on a blocking
+	// descriptor (terminal input nobody reads would hang the script forever).
+	sc, err := f.SyscallConn()
+	if err != nil {
 		return fmt.Errorf("%s ioctl failed: %v", name, err)
+	}
+	var errno syscall.Errno
+	if err := sc.Control(func(fd uintptr) {
+		_, _, errno = syscall.Syscall(syscall.SYS_IOCTL, fd, cmd, ptr)
+	}); err != nil {
+		return fmt.Errorf("%s ioctl failed: %v", name, err)
+	}
+	if errno != 0 {
+		return fmt.Errorf("%s ioctl failed: %v", name, errno)
 	}
 	return nil
 }
